@@ -455,4 +455,34 @@ def minOpt [LT α] [DecidableRel (α := α) (· < ·)] : List α → Option α
   | [] => none
   | s :: ss => some (ss.foldl (fun m x => if x < m then x else m) s)
 
+/-! ### vocabulary of the translated data path of `Provenance.__init__` (`GenI`) -/
+
+/-- `np.repeat(v, k)`: every entry `k` times -/
+def repeatEach (v : List β) (k : Int) : List β := v.flatMap (fun x => List.replicate k.toNat x)
+/-- `np.tile(v, k)`: the whole vector `k` times -/
+def tile (v : List β) (k : Int) : List β := (List.replicate k.toNat v).flatten
+
+/-! ### vocabulary of the translated `Provenance.fork` / `__getitem__` (`GenC`) -/
+
+/-- `a.repeat(sizes, axis=0)`: row `i` repeated `sizes[i]` times -/
+def repeatRows4 (a : A4 Int) (sizes : List Int) : A4 Int :=
+  let rows := (List.zipWith (fun row (k : Int) => List.replicate k.toNat row) a.v sizes).flatten
+  ⟨rows.length, a.d, a.c, rows⟩
+/-- `np.array(a[index])` for a list of (possibly negative) row positions; a position out of range raises IndexError -/
+def takeRows4 (a : A4 Int) (index : List Int) : Except String (A4 Int) := do
+  let rows ← index.mapM (fun i => match pyIdx a.v.length i with
+    | some k => pure (a.v.getD k [])
+    | none => throw "IndexError")
+  pure ⟨rows.length, a.d, a.c, rows⟩
+
+/-! ### vocabulary of the translated `ADD.sum` (`GenD.add_sum`) -/
+
+/-- a 3-D array `(r, d, c)` filled with `x` -/
+def full3 (r d c : Int) (x : β) : List (List (List β)) := List.replicate r.toNat (List.replicate d.toNat (List.replicate c.toNat x))
+/-- `d.setdefault(key, len(d))` on an insertion-ordered dictionary kept as an association list: the dictionary afterwards and the value found / inserted -/
+def setdefault (d : List ((Int × Int) × Int)) (key : Int × Int) : List ((Int × Int) × Int) × Int :=
+  match d.find? (fun kv => kv.1 == key) with
+  | some kv => (d, kv.2)
+  | none => (d ++ [(key, (d.length : Int))], (d.length : Int))
+
 end Np
